@@ -67,7 +67,7 @@ Proof.
   destruct (n =? N); eexists; (split; [reflexivity|]); cbn [xer_skip]; rewrite E; f_equal; lia.
 Qed.
 
-Lemma step_close_last N n : exists c, classify N (TClose n) = Some c /\ xer_skip c 1 = ((if n =? N then 2 else 1), 0).
+Lemma step_close_last N n : exists c, classify N (TClose n) = Some c /\ xer_skip c 1 = (1, 0).
 Proof. cbn [classify]. destruct (n =? N); eexists; split; reflexivity. Qed.
 
 (* ---- a subtree leaves the depth counter where it was and never ends the skip *)
@@ -108,35 +108,34 @@ Proof.
 Qed.
 
 (* ---- completeness: started behind the opening tag of an unknown element <n>, the machine stops exactly at that
-   element's closing tag with depth 0, for EVERY content (names inside are irrelevant); only the element's own name
-   decides between the answers 1 and 2 *)
+   element's closing tag with depth 0 and answer 1, for EVERY content and EVERY name n - the element's own name
+   included, which may be the name N of the element being decoded *)
 Theorem skip_complete : forall N n kids rest,
   skip_run N (flatf kids ++ TClose n :: rest) 1 0%nat 0%nat =
-  ((if n =? N then 2 else 1), 0, S (ntags (flatf kids)), ((if (n =? N)%Z then 0 else 1) + length (flatf kids))%nat).
+  (1, 0, S (ntags (flatf kids)), (1 + length (flatf kids))%nat).
 Proof.
   intros N n kids rest. rewrite forest_neutral by lia.
   destruct (step_close_last N n) as (c & Hc & Hs).
-  unfold skip_run. rewrite (run_tag_stop _ _ _ _ _ _ _ _ _ _ Hc Hs) by (destruct (n =? N); discriminate).
-  destruct (n =? N); cbn [Z.eqb Pos.eqb]; f_equal; try (f_equal; lia); lia.
+  unfold skip_run. rewrite (run_tag_stop _ _ _ _ _ _ _ _ _ _ Hc Hs) by discriminate.
+  cbn [Z.eqb Pos.eqb]. f_equal; try (f_equal; lia); lia.
 Qed.
 
-(* the same in words of the C: the tokens consumed are the children and, when the caller advances (answer 1), the
+(* the same in words of the C: the tokens consumed are the children and (the caller advances: answer 1) the
    closing tag: together with the opening tag the caller consumed before, the whole element [XNode n kids] *)
-Corollary skip_consumes_element : forall N n kids rest, n <> N ->
+Corollary skip_consumes_element : forall N n kids rest,
   skip_run N (flatf kids ++ TClose n :: rest) 1 0%nat 0%nat =
   (1, 0, S (ntags (flatf kids)), (length (flat (XNode n kids)) - 1)%nat).
 Proof.
-  intros N n kids rest Hn. rewrite skip_complete.
-  assert (E : (n =? N) = false) by (apply Z.eqb_neq; exact Hn). rewrite E.
+  intros N n kids rest. rewrite skip_complete.
   rewrite flat_node. cbn [length]. rewrite app_length. cbn [length]. f_equal. lia.
 Qed.
 
-(* two subtrees of the same shape are skipped alike, whatever their names: the answer depends on the numbers of
-   tags and tokens only *)
-Corollary skip_names_irrelevant : forall N n kids1 kids2 rest1 rest2,
+(* two subtrees of the same shape are skipped alike, whatever their names (the roots' names too): the answer
+   depends on the numbers of tags and tokens only *)
+Corollary skip_names_irrelevant : forall N n1 n2 kids1 kids2 rest1 rest2,
   ntags (flatf kids1) = ntags (flatf kids2) -> length (flatf kids1) = length (flatf kids2) ->
-  skip_run N (flatf kids1 ++ TClose n :: rest1) 1 0%nat 0%nat =
-  skip_run N (flatf kids2 ++ TClose n :: rest2) 1 0%nat 0%nat.
+  skip_run N (flatf kids1 ++ TClose n1 :: rest1) 1 0%nat 0%nat =
+  skip_run N (flatf kids2 ++ TClose n2 :: rest2) 1 0%nat 0%nat.
 Proof. intros. rewrite !skip_complete. congruence. Qed.
 
 (* ---- the name-sensitive variant (seeded/C03-9) is NOT complete: enclosing element 0, unknown <1><0>text</0></1> *)
@@ -189,40 +188,43 @@ Qed.
 
 (* one unknown addition in phase 1: consumed as a whole, back in phase 1 *)
 Lemma ext_addition N kn t rest k :
-  root_unknown kn t = true -> root_not_encl N t = true ->
+  root_unknown kn t = true ->
   ext_run N kn (flat t ++ rest) Ph1 k = ext_run N kn rest Ph1 (length (flat t) + k)%nat.
 Proof.
-  intros Hu He. destruct t as [n| |n kids].
+  intros Hu. destruct t as [n| |n kids].
   - cbn [flat app]. unfold root_unknown in Hu. cbn [root_name] in Hu. apply negb_true_iff in Hu.
     unfold ext_run. cbn [ext_run_g classify]. rewrite Hu. reflexivity.
   - cbn [flat app]. unfold ext_run. rewrite ext_text. reflexivity.
   - unfold root_unknown in Hu. cbn [root_name] in Hu. apply negb_true_iff in Hu.
-    cbn [root_not_encl] in He. apply negb_true_iff in He.
     rewrite flat_node. cbn [app]. unfold ext_run. cbn [ext_run_g classify]. rewrite Hu.
     rewrite <- app_assoc. fold (ext_run N kn). rewrite forest_neutral3 by lia. cbn [app].
-    unfold ext_run. cbn [ext_run_g classify]. rewrite He. cbn [xer_skip Z.sub Z.eqb Z.add Z.opp Z.pos_sub Pos.eqb].
+    unfold ext_run. cbn [ext_run_g classify].
+    assert (Hs : forall c, (c = XClosing \/ c = XUnkClosing) -> xer_skip c 1 = (1, 0))
+      by (intros c [-> | ->]; reflexivity).
+    rewrite (Hs (if n =? N then XClosing else XUnkClosing)) by (destruct (n =? N); auto).
+    cbn [Z.eqb Pos.eqb].
     cbn [length]. rewrite app_length. cbn [length]. f_equal. lia.
 Qed.
 
-(* any number of unknown additions with arbitrary subtrees, then the closing tag of the element being decoded:
-   RC_OK, everything consumed *)
+(* any number of unknown additions with arbitrary subtrees and arbitrary names (not a known member's), then the
+   closing tag of the element being decoded: RC_OK, everything consumed *)
 Theorem ext_section_complete : forall N kn f rest k,
-  forallb (root_unknown kn) f = true -> forallb (root_not_encl N) f = true ->
+  forallb (root_unknown kn) f = true ->
   ext_run N kn (flatf f ++ TClose N :: rest) Ph1 k = XDone (length (flatf f) + 1 + k)%nat.
 Proof.
-  intros N kn f. induction f as [|t tl IH]; intros rest k Hu He.
+  intros N kn f. induction f as [|t tl IH]; intros rest k Hu.
   - cbn [flatf flat_all app]. unfold ext_run. cbn [ext_run_g classify]. rewrite Z.eqb_refl. f_equal.
-  - cbn [forallb] in Hu, He. apply andb_true_iff in Hu. apply andb_true_iff in He.
-    destruct Hu as [Hu1 Hu2]. destruct He as [He1 He2].
+  - cbn [forallb] in Hu. apply andb_true_iff in Hu. destruct Hu as [Hu1 Hu2].
     rewrite flatf_cons, <- app_assoc, ext_addition by assumption. rewrite IH by assumption.
     rewrite app_length. f_equal. lia.
 Qed.
 
-(* ... and the side condition on the additions' own names is needed: an addition that carries the name of the element
-   it is in (X.680 allows it) ends the element early - finding C03-xer-unknown-addition-named-like-enclosing *)
-Theorem ext_section_own_name_refuted : exists N f rest,
-  forallb (root_unknown (fun _ => false)) f = true /\
-  ext_run N (fun _ => false) (flatf f ++ TClose N :: rest) Ph1 0%nat <> XDone (length (flatf f) + 1)%nat.
+(* in particular an addition that carries the name of the element it is in (X.680 allows it) is skipped like any
+   other: the document of the former finding C03-xer-unknown-addition-named-like-enclosing, <0><0>text</0></0> *)
+Theorem ext_section_own_name : forall N kids rest,
+  ext_run N (fun _ => false) (flat (XNode N kids) ++ TClose N :: rest) Ph1 0%nat =
+  XDone (length (flat (XNode N kids)) + 1)%nat.
 Proof.
-  exists 0, [XNode 0 [XText]], []. split; [reflexivity|]. vm_compute. discriminate.
+  intros N kids rest. pose proof (ext_section_complete N (fun _ => false) [XNode N kids] rest 0%nat eq_refl) as H.
+  rewrite flatf_cons, flatf_nil, app_nil_r in H. rewrite H. f_equal. lia.
 Qed.
